@@ -32,7 +32,12 @@ RULE = ('BLIF/bench AST + text generated together; Output trace of the imported 
         'demands, driven by a de Bruijn sequence over all 16 (D,E,S,R) valuations (every window of 3 consecutive '
         'cycles occurs) plus from-reset prefixes; (4) random hierarchical designs (one- and two-level .subckt, '
         'state inside instances, outputs read internally, bit-indexed vector ports) imported with '
-        'merge_io_vectors in {True, False}; (5) random .bench netlists with 2-ary and n-ary gates and DFFs. '
+        'merge_io_vectors in {True, False}; (4b) vector input AND output ports of width 1,2,9,10,11,12,17,33 '
+        '(1- and 2-digit indices) with y[i] = a[i] xor b[(i+1) mod n], z = a with one bit inverted, walking-one + '
+        'random stimulus (any permutation of port bits changes the trace), ports declared in ascending and in '
+        'shuffled order, merge in {True, False}; ports whose indices do not start at 0 and a lone a[0] are tried and '
+        'counted/skipped when the importer rejects them; merged port values go through the Coq vec_bit/vec_merge '
+        'of C12_vector_ports; (5) random .bench netlists with 2-ary and n-ary gates and DFFs. '
         'A case is distinct by its AST and non-trivial when its outputs depend on an input or on state '
         '(covers: the function is not constant, except the two constant covers themselves).')
 IMPORTS = ('From Coq Require Import ZArith List Bool String.\n'
@@ -332,7 +337,8 @@ def impl_blif_run(text, merge, igroups, ogroups, inss):
     return trace, block
 
 
-def run_blif_case(ctx, fam, key, models, inss, merge, fuel=None, nontrivial=None, sample=False, extra=None):
+def run_blif_case(ctx, fam, key, models, inss, merge, fuel=None, nontrivial=None, sample=False, extra=None,
+                  reject_ok=None):
     """returns a pending-case dict (Coq results are filled in later, in one batch)"""
     top = models[0]
     lib = {m.name: m for m in models}
@@ -348,6 +354,9 @@ def run_blif_case(ctx, fam, key, models, inss, merge, fuel=None, nontrivial=None
     try:
         got, block = impl_blif_run(text, merge, ig, og, inss)
     except Exception as e:  # the importer / simulator rejected a file of the supported subset
+        if reject_ok is not None:     # outside the supported subset: rejection is acceptable, count and skip
+            ctx.count('rejected_outside_subset', '%s(%s)' % (reject_ok, type(e).__name__))
+            return None
         ctx.spec_violation('blif:%s:rejected' % fam, 'input_from_blif/Simulation raised %s: %s on a supported BLIF file'
                            % (type(e).__name__, str(e)[:200]), dict(rep, expected=expected))
         return None
@@ -736,6 +745,86 @@ def run_hier(ctx):
     settle_blif(ctx, pend, 'c12hier')
 
 
+
+# ----------------------------------------------------------------------------- family 4b: wide vector ports
+VEC_WIDTHS = (1, 2, 9, 10, 11, 12, 17, 33)
+
+
+def vec_model(n, rng, shuffle_decl, start=0):
+    """y[i] = a[i] xor b[(i+1) mod n]  (odd i through the generic sum-of-products path),
+    z = a with bit k inverted, p = s.  Every permutation of the bits of a, b, y or z changes a trace
+    under the walking-one stimulus."""
+    a = ['a[%d]' % (i + start) for i in range(n)]
+    b = ['b[%d]' % (i + start) for i in range(n)]
+    y = ['y[%d]' % (i + start) for i in range(n)]
+    z = ['z[%d]' % (i + start) for i in range(n)]
+    k = rng.randrange(n)
+    cmds = []
+    for i in range(n):
+        rows = ['10', '01'] if i % 2 == 0 else ['01', '10']
+        cmds.append(('names', [a[i], b[(i + 1) % n], y[i]], rows))
+        cmds.append(('names', [a[i], z[i]], ['0'] if i == k else ['1']))
+    cmds.append(('names', ['s', 'p'], ['1']))
+    ins = a + b + ['s']
+    outs = y + z + ['p']
+    if shuffle_decl:
+        rng.shuffle(ins)
+        rng.shuffle(outs)
+        rng.shuffle(cmds)
+    return Model('vec', 0, ins, outs, cmds)
+
+
+def vec_stimulus(m, n, rng, merge):
+    """walking ones over a then over b, all-ones, then random rows; as port values"""
+    names = m.inputs
+    pos = {nm: j for j, nm in enumerate(names)}
+    avec = sorted([x for x in names if x.startswith('a[')], key=lambda t: int(t[2:-1]))
+    bvec = sorted([x for x in names if x.startswith('b[')], key=lambda t: int(t[2:-1]))
+    rows = []
+    for vec in (avec, bvec):
+        for nm in vec:
+            r = [0] * len(names)
+            r[pos[nm]] = 1
+            r[pos['s']] = rng.randint(0, 1)
+            rows.append(r)
+    rows.append([1] * len(names))
+    for _ in range(4):
+        rows.append([rng.randint(0, 1) for _ in names])
+    ig = port_groups(names, merge)
+    return [[sum(row[pos[nm]] << j for j, nm in enumerate(bits)) for _, bits in ig] for row in rows]
+
+
+def run_vectors(ctx):
+    pend = []
+    variants = 1 if ctx.tier == 'quick' else 6
+    widths = list(VEC_WIDTHS) if ctx.tier == 'quick' else list(VEC_WIDTHS) + [3, 5, 20, 21, 40]
+    for n in widths:
+        for v in range(variants):
+            for shuffle_decl in (False, True):
+                rng = ctx.sub_rng('vector', n, v, shuffle_decl)
+                m = vec_model(n, rng, shuffle_decl)
+                for merge in (True, False):
+                    inss = vec_stimulus(m, n, ctx.sub_rng('vector-in', n, v, shuffle_decl), merge)
+                    ctx.count('vector_width', n)
+                    ctx.count('vector_decl_order', 'shuffled' if shuffle_decl else 'ascending')
+                    ctx.count('vector_merge', merge)
+                    # a lone a[0] is outside the supported subset (see ASSUMPTIONS): count and skip if rejected
+                    pend.append(run_blif_case(ctx, 'vector', (n, v, shuffle_decl), [m], inss, merge,
+                                              sample=(n == 11 and v == 0 and shuffle_decl and merge),
+                                              extra={'width': n, 'declaration_order': m.inputs},
+                                              reject_ok=('lone-bit-port-width-1' if n == 1 else None)))
+    # ports whose indices do not start at 0: exercised only if the importer accepts them
+    for n, start in ((2, 1), (11, 1), (12, 5)):
+        rng = ctx.sub_rng('vector-offset', n, start)
+        m = vec_model(n, rng, False, start=start)
+        for merge in (True, False):
+            inss = vec_stimulus(m, n, ctx.sub_rng('vector-offset-in', n, start), merge)
+            ctx.count('vector_offset_start', start)
+            pend.append(run_blif_case(ctx, 'vector-offset', (n, start), [m], inss, merge,
+                                      extra={'width': n, 'first_index': start},
+                                      reject_ok='indices-start-at-%d' % start))
+    settle_blif(ctx, pend, 'c12vec')
+
 # ----------------------------------------------------------------------------- family 5: ISCAS .bench
 NARY = ('AND', 'OR', 'NAND', 'NOR', 'XOR')
 
@@ -920,6 +1009,7 @@ def run(ctx):
     run_latches(ctx)
     run_flops(ctx)
     run_hier(ctx)
+    run_vectors(ctx)
     run_bench(ctx)
 
 
